@@ -10,6 +10,7 @@
 #include <csignal>
 #include <chrono>
 #include <cstdlib>
+#include <cstring>
 #include <filesystem>
 #include <fstream>
 #include <mutex>
@@ -66,40 +67,61 @@ namespace fs = std::filesystem;
 // Handshake to PeerConnection. The real work is a raw syscall (no libc/ASan interceptor needed;
 // buffers are library memory already under ASan's eye in the callers).
 namespace {
+// key: (remote IPv4 address in host order, remote port); address 0 = "any address" (the port-only API)
+using io_key = std::pair<uint32_t, uint16_t>;
 std::mutex g_io_lock;
-std::map<uint16_t, int64_t> g_send_budget;   // remote port -> bytes still allowed (absent: unlimited)
-std::map<uint16_t, uint32_t> g_recv_chunk;   // remote port -> max bytes per recv call
+std::map<io_key, int64_t> g_send_budget;   // -> bytes still allowed (absent: unlimited)
+std::map<io_key, uint32_t> g_recv_chunk;   // -> max bytes per recv call
 std::atomic<bool> g_io_limits{false};
 std::atomic<uint64_t> g_io_moved{0};
 
-uint16_t remote_port(int fd) {
+io_key remote_end(int fd) {
   sockaddr_storage ss{};
   socklen_t n = sizeof ss;
-  if (getpeername(fd, (sockaddr*)&ss, &n) != 0) return 0;
-  if (ss.ss_family == AF_INET) return ntohs(((sockaddr_in*)&ss)->sin_port);
-  if (ss.ss_family == AF_INET6) return ntohs(((sockaddr_in6*)&ss)->sin6_port);
-  return 0;
+  if (getpeername(fd, (sockaddr*)&ss, &n) != 0) return {0, 0};
+  if (ss.ss_family == AF_INET) return {ntohl(((sockaddr_in*)&ss)->sin_addr.s_addr), ntohs(((sockaddr_in*)&ss)->sin_port)};
+  if (ss.ss_family == AF_INET6) {
+    auto* a = (sockaddr_in6*)&ss;
+    uint32_t v4 = 0;
+    if (IN6_IS_ADDR_V4MAPPED(&a->sin6_addr)) { memcpy(&v4, a->sin6_addr.s6_addr + 12, 4); v4 = ntohl(v4); }
+    return {v4, ntohs(a->sin6_port)};
+  }
+  return {0, 0};
+}
+uint16_t remote_port(int fd) { return remote_end(fd).second; }
+uint32_t ip_of(const std::string& ip) {
+  in_addr a{};
+  if (ip.empty() || inet_pton(AF_INET, ip.c_str(), &a) != 1) return 0;
+  return ntohl(a.s_addr);
+}
+// exact (address, port) entry first, then the port-only wildcard
+template <class M> typename M::iterator io_find(M& m, io_key k) {
+  auto it = m.find(k);
+  if (it == m.end() && k.first != 0) it = m.find({0, k.second});
+  return it;
 }
 }  // namespace
 
 extern "C" ssize_t send(int fd, const void* buf, size_t len, int flags) {
   size_t allow = len;
-  uint16_t port = 0;
+  io_key key{0, 0};
+  bool limited = false;
   if (g_io_limits.load(std::memory_order_relaxed)) {
-    port = remote_port(fd);
+    key = remote_end(fd);
     std::lock_guard<std::mutex> g(g_io_lock);
-    auto it = g_send_budget.find(port);
+    auto it = io_find(g_send_budget, key);
     if (it != g_send_budget.end()) {
       if (it->second <= 0) { errno = EAGAIN; return -1; }
       allow = (size_t)std::min<int64_t>((int64_t)len, it->second);
-    } else port = 0;
+      limited = true;
+    }
   }
   long r = syscall(SYS_sendto, fd, buf, allow, flags | MSG_NOSIGNAL, nullptr, 0);
   if (r > 0) {
     g_io_moved.fetch_add((uint64_t)r, std::memory_order_relaxed);
-    if (port != 0) {
+    if (limited) {
       std::lock_guard<std::mutex> g(g_io_lock);
-      auto it = g_send_budget.find(port);
+      auto it = io_find(g_send_budget, key);
       if (it != g_send_budget.end()) it->second -= r;
     }
   }
@@ -109,9 +131,9 @@ extern "C" ssize_t send(int fd, const void* buf, size_t len, int flags) {
 extern "C" ssize_t recv(int fd, void* buf, size_t len, int flags) {
   size_t allow = len;
   if (g_io_limits.load(std::memory_order_relaxed)) {
-    uint16_t port = remote_port(fd);
+    io_key key = remote_end(fd);
     std::lock_guard<std::mutex> g(g_io_lock);
-    auto it = g_recv_chunk.find(port);
+    auto it = io_find(g_recv_chunk, key);
     if (it != g_recv_chunk.end() && it->second != 0) allow = std::min<size_t>(len, it->second);
   }
   long r = syscall(SYS_recvfrom, fd, buf, allow, flags, nullptr, nullptr);
@@ -122,26 +144,32 @@ extern "C" ssize_t recv(int fd, void* buf, size_t len, int flags) {
 
 namespace ltv {
 
-void Session::set_send_budget(uint16_t port, int64_t bytes) {
+void Session::set_send_budget(const std::string& ip, uint16_t port, int64_t bytes) {
   std::lock_guard<std::mutex> g(g_io_lock);
-  if (bytes < 0) g_send_budget.erase(port); else g_send_budget[port] = bytes;
+  io_key k{ip_of(ip), port};
+  if (bytes < 0) g_send_budget.erase(k); else g_send_budget[k] = bytes;
   g_io_limits = !g_send_budget.empty() || !g_recv_chunk.empty();
 }
-void Session::add_send_budget(uint16_t port, int64_t bytes) {
+void Session::add_send_budget(const std::string& ip, uint16_t port, int64_t bytes) {
   std::lock_guard<std::mutex> g(g_io_lock);
-  g_send_budget[port] += bytes;
+  g_send_budget[{ip_of(ip), port}] += bytes;
   g_io_limits = true;
 }
-int64_t Session::send_budget(uint16_t port) {
+int64_t Session::send_budget(const std::string& ip, uint16_t port) {
   std::lock_guard<std::mutex> g(g_io_lock);
-  auto it = g_send_budget.find(port);
+  auto it = g_send_budget.find({ip_of(ip), port});
   return it == g_send_budget.end() ? -1 : it->second;
 }
-void Session::set_recv_chunk(uint16_t port, uint32_t n) {
+void Session::set_recv_chunk(const std::string& ip, uint16_t port, uint32_t n) {
   std::lock_guard<std::mutex> g(g_io_lock);
-  if (n == 0) g_recv_chunk.erase(port); else g_recv_chunk[port] = n;
+  io_key k{ip_of(ip), port};
+  if (n == 0) g_recv_chunk.erase(k); else g_recv_chunk[k] = n;
   g_io_limits = !g_send_budget.empty() || !g_recv_chunk.empty();
 }
+void Session::set_send_budget(uint16_t port, int64_t bytes) { set_send_budget(std::string(), port, bytes); }
+void Session::add_send_budget(uint16_t port, int64_t bytes) { add_send_budget(std::string(), port, bytes); }
+int64_t Session::send_budget(uint16_t port) { return send_budget(std::string(), port); }
+void Session::set_recv_chunk(uint16_t port, uint32_t n) { set_recv_chunk(std::string(), port, n); }
 void Session::clear_io_limits() {
   std::lock_guard<std::mutex> g(g_io_lock);
   g_send_budget.clear();
@@ -458,12 +486,18 @@ void Session::remove(Torrent* t) {
   step();
 }
 
-torrent::PeerConnectionBase* Session::find_connection(Torrent* t, uint16_t peer_port) {
+torrent::PeerConnectionBase* Session::find_connection(Torrent* t, const std::string& peer_ip, uint16_t peer_port) {
+  uint32_t want = ip_of(peer_ip);
   for (torrent::Peer* p : *t->dl.connection_list()) {
     torrent::PeerConnectionBase* pcb = p->m_ptr();
-    if (pcb->file_descriptor() >= 0 && remote_port(pcb->file_descriptor()) == peer_port) return pcb;
+    if (pcb->file_descriptor() < 0) continue;
+    io_key k = remote_end(pcb->file_descriptor());
+    if (k.second == peer_port && (want == 0 || k.first == want)) return pcb;
   }
   return nullptr;
+}
+torrent::PeerConnectionBase* Session::find_connection(Torrent* t, uint16_t peer_port) {
+  return find_connection(t, std::string(), peer_port);
 }
 size_t Session::connection_count(Torrent* t) { return t->dl.connection_list()->size(); }
 size_t Session::handshake_count() { return torrent::manager->handshake_manager()->size(); }
